@@ -32,8 +32,8 @@ RULE = ("case = random history (<= 12 ops quick / <= 30 thorough) of: construct 
         "zero_weights True / False / not passed), write into module (non-zero biases), construct from module (3 state types; with nothing but the required "
         "num_visible, with the module's own sizes, or with inconsistent / None / 0 values of num_visible / num_hidden / num_aux chosen independently, by "
         "keyword or positionally: the state must take its sizes from the module), sizes-branch constructors also called positionally, external "
-        "in-place write into ONE network, fit with bases (24 optimizer settings over SGD, Adam, AdamW, Adadelta, Adagrad, RMSprop, Adamax, NAdam, RAdam, "
-        "Rprop, ASGD incl. amsgrad / maximize / decoupled decay / foreach, with or without a StepLR / ExponentialLR scheduler; a callback inspects the "
+        "in-place write into ONE network, fit with bases (29 optimizer settings over SGD, Adam, AdamW, Adadelta, Adagrad, RMSprop, Adamax, NAdam, RAdam, "
+        "Rprop, ASGD, Adafactor incl. amsgrad / maximize / decoupled decay / foreach / fused, with or without a StepLR / ExponentialLR scheduler; a callback inspects the "
         "phase aux bias after EVERY batch; one fixed history trains a mixed state once with every setting), fit without bases (must be refused — any "
         "exception — with parameters, storages, callback events, torch RNG state, stop flag, data and bases all unchanged), "
         "reinitialize_parameters (often followed by a fit), save/load/autoload; the 'random' weights the model is given are recomputed "
